@@ -2,6 +2,7 @@ import CallbagModel.Insts
 import CallbagModel.Mon
 import Driver.ParDrv
 import Driver.IvlDrv
+import Driver.PipeDrv
 /-!
 # cbdrv — the compiled driver (imports model files only)
 
@@ -139,6 +140,10 @@ def main (args : List String) : IO UInt32 := do
     IO.println s!"SUMMARY \{\"scripts\": {st.scripts}, \"nested\": {st.nested}, \"max_depth\": {st.maxDepth}, \"events\": {st.events}, \"mismatches\": {st.mismatches}, \"model_drift\": {st.fullMismatches}, \"flagged\": {st.flagged}, \"nonconformant\": {st.nonconf}, \"panics\": {st.panics}}"
     return 0
   | ["par"] => parLoop (← IO.getStdin); return 0
+  | ["pipe"] =>
+    let (n, bad) ← pipeLoop (← IO.getStdin) 0 0
+    IO.println s!"SUMMARY \{\"programs\": {n}, \"flagged\": {bad}}"
+    return 0
   | ["ivl"] =>
     let (n, bad, mism) ← ivlLoop (← IO.getStdin) 0 0 0
     IO.println s!"SUMMARY \{\"scripts\": {n}, \"flagged\": {bad}, \"mismatches\": {mism}}"
